@@ -59,6 +59,8 @@ type InstCfg struct {
 	// (grammar, U, knobs) and reused for every instance with the same knobs,
 	// as a program that keeps one options slice for all its parsers does.
 	ShareOpts bool
+	// OptOrder permutes the order in which the options are passed to Init.
+	OptOrder int
 }
 
 // Instance is the uniform face the generated driver.go gives every emitted
